@@ -1705,6 +1705,23 @@ def _patch_exec():
 
     def ev(self, node, st, ctx, k):
         """evaluate expression in code position; k(sv, st)"""
+        if (type(node) is ast.Compare and len(node.ops) == 1 and isinstance(node.ops[0], (ast.In, ast.NotIn)) and self.is_pure(node.comparators[0], st)
+                and self.is_pure(node.left, st)):
+            # `x in obj` / `x not in obj` where obj's class puts __contains__ under contract: a call of that method
+            try:
+                c = self.pev(node.comparators[0], st, Mode(False, None, None))
+            except OutOfSubset:
+                c = None
+            if (c is not None and c.kind == "v" and c.hint in CLASSES and "__contains__" in CLASSES[c.hint].methods
+                    and not self.is_setlike(c) and not self.is_listlike(c) and not is_dict_hint(c.hint)):
+                call = ast.Call(func=ast.Attribute(value=node.comparators[0], attr="__contains__", ctx=ast.Load()), args=[node.left], keywords=[])
+                ast.copy_location(call, node)
+                ast.fix_missing_locations(call)
+                neg = isinstance(node.ops[0], ast.NotIn)
+                def got_in(r, st2):
+                    tv = self.truth(r, st2)
+                    k(sv_bool(Not(tv) if neg else tv), st2)
+                return self.ev_contract_call(FUNCS[CLASSES[c.hint].methods["__contains__"]], node.comparators[0], call, st, ctx, got_in)
         if self.is_pure(node, st):
             checks = []
             sv = self.pev(node, st, Mode(False, None, checks))
